@@ -7,6 +7,7 @@
 -/
 import QiVerif.Lemmas.Decode
 import QiVerif.Model.Gen
+import QiVerif.Lemmas.Names
 set_option linter.unusedSimpArgs false
 set_option linter.unusedVariables false
 namespace QiVerif.C05
@@ -174,5 +175,79 @@ def exArgs : List TVal :=
 example : TypedFields exTs exArgs ∧ SmallList exArgs := by
   simp [exTs, exArgs, Typed, TypedPairs, TypedFields, TypedList, TypedMembers, width, C09.WF, Plain, print, maxStringSize,
     basicLetters, zeroSize, zeroSizeList, Small, SmallPairs, SmallList, listValueMaxSize]
+
+
+/-! ### the names of what is generated -/
+
+open QiVerif.Names
+
+/-- **while fewer than a hundred names are in use, the name handed out is a new one** -/
+theorem registerName_fresh (name : Name) (used : List Name) (h : used.length < 100) : registerName name used ∉ used := by
+  unfold registerName
+  cases hf : (List.range 100).find? (fun i => !used.contains (candidate name i)) with
+  | some i =>
+    have := List.find?_some hf
+    simpa using this
+  | none =>
+    exfalso
+    have hall : ∀ x ∈ (List.range 100).map (candidate name), x ∈ used := by
+      intro x hx
+      obtain ⟨i, hi, rfl⟩ := List.mem_map.mp hx
+      have := List.find?_eq_none.mp hf i hi
+      simpa using this
+    have := length_le_of_nodup_subset _ used (candidates_nodup name 100) hall
+    simp at this; omega
+
+/-- **the names given to the actions of one object are pairwise distinct** (fewer than a hundred actions) -/
+theorem registerAll_nodup : (names used : List Name) → used.length + names.length ≤ 100 →
+    (registerAll used names).Nodup ∧ ∀ x ∈ registerAll used names, x ∉ used
+  | [], _, _ => by simp [registerAll]
+  | n :: r, used, h => by
+    simp only [List.length_cons] at h
+    have hf := registerName_fresh n used (by omega)
+    have ih := registerAll_nodup r (registerName n used :: used) (by simp; omega)
+    simp only [registerAll]
+    refine ⟨List.nodup_cons.mpr ⟨?_, ih.1⟩, ?_⟩
+    · intro hm; exact ih.2 _ hm (by simp)
+    · intro x hx
+      simp only [List.mem_cons] at hx
+      rcases hx with e | e
+      · subst e; exact hf
+      · intro hu; exact ih.2 x e (by simp [hu])
+
+/-- with a hundred names in use the loop gives up and hands out a name that is in use -/
+example : registerName ['a'] ((List.range 101).map (candidate ['a'])) ∈ (List.range 101).map (candidate ['a']) := by decide
+
+
+/-- **every method a specialized proxy has by itself is a reserved name** (the methods of
+    bus.ObjectProxy with object.Object, `Proxy`, `WithContext`): `CleanMethodName` renames an IDL
+    method of that name -/
+theorem embedded_reserved : ∀ n ∈ embedded, reserved.contains n = true := by decide
+
+theorem embedded_no_do : ∀ e ∈ embedded, (s "Do").isPrefixOf e = false := by decide
+
+/-- … so the Go name of an IDL method never collides with one of them -/
+theorem clean_method_not_embedded (n : Name) : cleanMethodName n ∉ embedded := by
+  unfold cleanMethodName
+  split
+  · intro hm
+    have := embedded_no_do _ hm
+    simp [s, List.isPrefixOf] at this
+  · rename_i hr
+    intro hm
+    exact hr (embedded_reserved n hm)
+
+/-- what `registerName` does not see: names derived from the registered ones.  A method named like
+    the accessor of a property, like the subscriber or the helper of a signal, like a method of the
+    stub itself, or like the renamed form of a reserved name collides (listed findings) -/
+example : clashes { methods := [s "getLevel"], signals := [], props := [s "level"] } = [s "GetLevel"] := by decide
+example : clashes { methods := [s "subscribeTick"], signals := [s "tick"], props := [] } = [s "SubscribeTick"] := by decide
+example : clashes { methods := [s "signalTick"], signals := [s "tick"], props := [] } = [s "SignalTick"] := by decide
+example : clashes { methods := [s "activate"], signals := [], props := [] } = [s "Activate", s "Activate"] := by decide
+example : clashes { methods := [s "subscribe", s "doSubscribe"], signals := [], props := [] } = [s "DoSubscribe"] := by decide
+/-- … while equal names of a method, a signal and a property, or names equal after `Title`, are told apart -/
+example : clashes { methods := [s "tick", s "Tick"], signals := [s "tick"], props := [s "tick"] } = [] := by decide
+/-- … and a method named like a method of the embedded proxy is renamed -/
+example : clashes { methods := [s "stats", s "proxy", s "withContext", s "property"], signals := [], props := [] } = [] := by decide
 
 end QiVerif.C05
